@@ -60,7 +60,11 @@ type wsSlot struct {
 	lastOK bool   // validity of the content that encoding carried
 	lastT  bool   // ... and whether its signature 0 carried the flipped bit (and the validity without it)
 	lastP  bool
-	pEdit  int // value of the "ws-edit" parameter the caller last put into the protected / unprotected map (0: none)
+	cver   int       // content identity: a fresh number whenever protected bytes or payload change; travels through encode / decode
+	lastCv int       // ... of the last encoding
+	csigs  []*wsCsig // countersignatures attached to the object (at most one full, one abbreviated)
+	lastCs []wsCsig  // their state inside the last encoding
+	pEdit  int       // value of the "ws-edit" parameter the caller last put into the protected / unprotected map (0: none)
 	uEdit  int
 	dec    bool // the object came out of a decoder (it retains raw header bytes, which an edit must discard)
 	tmpl   bool // constructed in this history and never decoded into
@@ -68,6 +72,28 @@ type wsSlot struct {
 	pure   bool // decoded and never edited since (only verified / encoded): a received message
 	tamper bool // signature 0 currently has a flipped bit
 	pre    bool // validity before the tamper
+}
+
+// wsCsig is a countersignature hanging in the unprotected bucket of an object (label 11: full,
+// label 12: abbreviated), made by the fixed countersigner key over the object as it was then.
+type wsCsig struct {
+	abbrev bool
+	ext    []byte
+	cid    int    // identity of the parent content (protected bytes + payload) it was made over
+	sig0   []byte // parent signature it was made over (COSE_Sign1 parents only)
+}
+
+var wsCsKey = refcose.KeyMat{Alg: refcose.AlgEdDSA, D: rc.Hex("workspace-countersigner-seed-32b!")}
+
+func (s *wsSlot) sig0() []byte {
+	if s.m.sm != nil {
+		return nil // a countersignature on a COSE_Sign body does not cover the signers' signatures
+	}
+	return append([]byte{}, *s.sigs()[0]...)
+}
+
+func (s *wsSlot) csigValid(c *wsCsig) bool {
+	return c.cid == s.cver && bytes.Equal(c.sig0, s.sig0())
 }
 
 func (s *wsSlot) sigs() []*[]byte {
@@ -98,6 +124,7 @@ func checkWorkspaceFor(c wsCase, only string) error {
 	var slots []*wsSlot
 	var buffers [][]byte
 	edits := 0
+	nextContent := 0
 	opaque := map[int][]cose.Signer{} // per spec: signers over opaque crypto.Signer wrappers, one object per key, shared by all objects made from the spec
 	pick := func(i int) *wsSlot {
 		if len(slots) == 0 {
@@ -124,6 +151,46 @@ func checkWorkspaceFor(c wsCase, only string) error {
 				}
 				if e := fail("C03:invalid-accepted", "after step %d (%+v): object %d (%v) verifies although its signed content was changed after signing", step, op, i, s.spec.Kind); e != nil {
 					return e
+				}
+			}
+		}
+		// countersignatures bind to the exact parent they were made over
+		csVer, err := libVerifier(wsCsKey, false)
+		if err != nil {
+			return err
+		}
+		for i, s := range slots {
+			if !s.signed {
+				continue
+			}
+			for ci, cs := range s.csigs {
+				var verr error
+				un := s.m.headers().Unprotected
+				if cs.abbrev {
+					sig, ok := un[int64(12)].([]byte)
+					if !ok {
+						verr = fmt.Errorf("abbreviated countersignature no longer in the unprotected bucket (%T)", un[int64(12)])
+					} else {
+						verr = cose.VerifyCountersign0(csVer, s.m.parent((step+ci)%2 == 0), cs.ext, sig)
+					}
+				} else {
+					obj, ok := un[int64(11)].(*cose.Countersignature)
+					if !ok {
+						verr = fmt.Errorf("countersignature no longer in the unprotected bucket (%T)", un[int64(11)])
+					} else {
+						verr = obj.Verify(csVer, s.m.parent((step+ci)%2 == 1), cs.ext)
+					}
+				}
+				if want := s.csigValid(cs); (verr == nil) != want {
+					if verr != nil {
+						if e := fail("C10:countersignature-rejected", "after step %d (%+v): object %d (%v): a countersignature (abbreviated=%v) made over exactly the protected bytes, payload and signature the object has now is rejected: %v", step, op, i, s.spec.Kind, cs.abbrev, verr); e != nil {
+							return e
+						}
+						continue
+					}
+					if e := fail("C10:countersignature-of-other-parent-accepted", "after step %d (%+v): object %d (%v): a countersignature (abbreviated=%v) verifies although the parent's protected bytes, payload or signature changed since it was made", step, op, i, s.spec.Kind, cs.abbrev); e != nil {
+						return e
+					}
 				}
 			}
 		}
@@ -159,7 +226,8 @@ func checkWorkspaceFor(c wsCase, only string) error {
 				ss = opaque[si]
 				stats.Class("ws/opaque-signers")
 			}
-			slots = append(slots, &wsSlot{m: constructLib(&spec), spec: &spec, ss: ss, vs: vs, tmpl: true})
+			nextContent++
+			slots = append(slots, &wsSlot{m: constructLib(&spec), spec: &spec, ss: ss, vs: vs, tmpl: true, cver: nextContent})
 			stats.Class("ws/new")
 		case "copy-template":
 			// an unsigned message used as a template: value copies, each signed on its own
@@ -256,6 +324,11 @@ func checkWorkspaceFor(c wsCase, only string) error {
 				}
 				stats.Class("ws/encode-after-edit")
 			}
+			s.lastCs = nil
+			for _, cs := range s.csigs {
+				s.lastCs = append(s.lastCs, *cs)
+			}
+			s.lastCv = s.cver
 			s.last, s.lastOK, s.lastT, s.lastP = append([]byte{}, out...), s.valid, s.tamper, s.pre
 			buffers = append(buffers, out)
 			stats.Class("ws/encode")
@@ -306,7 +379,12 @@ func checkWorkspaceFor(c wsCase, only string) error {
 					}
 					continue
 				}
-				slots = append(slots, &wsSlot{m: m, spec: src.spec, ss: src.ss, vs: src.vs, signed: true, dec: true, pure: true, valid: src.lastOK, tamper: src.lastT, pre: src.lastP, from: append([]byte{}, src.last...)})
+				ns := &wsSlot{m: m, spec: src.spec, ss: src.ss, vs: src.vs, signed: true, dec: true, pure: true, valid: src.lastOK, tamper: src.lastT, pre: src.lastP, from: append([]byte{}, src.last...), cver: src.lastCv}
+				for _, cs := range src.lastCs {
+					c2 := cs
+					ns.csigs = append(ns.csigs, &c2)
+				}
+				slots = append(slots, ns)
 				stats.Class("ws/decode")
 				break
 			}
@@ -340,7 +418,12 @@ func checkWorkspaceFor(c wsCase, only string) error {
 			dst.spec, dst.ss, dst.vs = src.spec, src.ss, src.vs
 			dst.dec, dst.pure, dst.pEdit, dst.uEdit, dst.tmpl, dst.shared = true, true, 0, 0, false, false
 			dst.signed, dst.valid, dst.from, dst.tamper, dst.pre = true, src.lastOK, append([]byte{}, src.last...), src.lastT, src.lastP
-			dst.last = nil
+			lastCs, lastCv := src.lastCs, src.lastCv
+			dst.last, dst.cver, dst.csigs = nil, lastCv, nil
+			for _, cs := range lastCs {
+				c2 := cs
+				dst.csigs = append(dst.csigs, &c2)
+			}
 			stats.Class("ws/decode-into-used-variable")
 		case "edit-protected", "edit-payload", "edit-unprotected":
 			s := pick(op.A)
@@ -399,6 +482,10 @@ func checkWorkspaceFor(c wsCase, only string) error {
 				}
 			}
 			s.from = nil
+			if op.Op != "edit-unprotected" {
+				nextContent++
+				s.cver = nextContent
+			}
 			if op.Op != "edit-unprotected" && s.signed {
 				s.valid, s.pre = false, false
 			}
@@ -417,6 +504,72 @@ func checkWorkspaceFor(c wsCase, only string) error {
 				stats.Class("ws/edit-in-place")
 			}
 			stats.Class("ws/" + op.Op)
+		case "countersign":
+			s := pick(op.A)
+			if s == nil || !s.signed {
+				continue
+			}
+			abbrev := op.B%2 == 1
+			for _, c0 := range s.csigs {
+				if c0.abbrev == abbrev {
+					abbrev = !abbrev
+				}
+			}
+			dup := false
+			for _, c0 := range s.csigs {
+				if c0.abbrev == abbrev {
+					dup = true
+				}
+			}
+			if dup {
+				continue
+			}
+			csS, err := libSigner(wsCsKey, false)
+			if err != nil {
+				return err
+			}
+			cs := &wsCsig{abbrev: abbrev, cid: s.cver, sig0: s.sig0()}
+			if op.B%3 == 0 {
+				cs.ext = []byte("countersigner's external data")
+			}
+			h := s.m.headers()
+			nu := cose.UnprotectedHeader{}
+			for k, v := range h.Unprotected {
+				nu[k] = v
+			}
+			rnd := refcose.NewEntropy([]byte("ws-cs"))
+			if abbrev {
+				sig, err := cose.Countersign0(rnd, csS, s.m.parent(op.B%4 < 2), cs.ext)
+				if err != nil {
+					if e := fail("C10:countersigning-refused", "step %d: Countersign0 over a signed %v fails: %v", step, s.spec.Kind, err); e != nil {
+						return e
+					}
+					continue
+				}
+				nu[int64(12)] = sig
+			} else {
+				obj := cose.NewCountersignature()
+				if len(cs.ext) == 0 {
+					obj.Headers.Protected.SetAlgorithm(cose.AlgorithmEdDSA)
+				}
+				if err := obj.Sign(rnd, csS, s.m.parent(op.B%4 < 2), cs.ext); err != nil {
+					if e := fail("C10:countersigning-refused", "step %d: Countersignature.Sign over a signed %v fails: %v", step, s.spec.Kind, err); e != nil {
+						return e
+					}
+					continue
+				}
+				nu[int64(11)] = obj
+			}
+			if _, taken := h.Unprotected[int64(11)]; taken && !abbrev && false {
+				continue
+			}
+			h.Unprotected = nu
+			if s.dec {
+				h.RawUnprotected = nil
+			}
+			s.from, s.pure = nil, false
+			s.csigs = append(s.csigs, cs)
+			stats.Class("ws/countersign")
 		case "tamper":
 			s := pick(op.A)
 			if s == nil || !s.signed {
@@ -543,7 +696,7 @@ func genWorkspace(t *rapid.T) wsCase {
 		c.Ops = append(c.Ops, wsOp{Op: "encode"}, wsOp{Op: "new", A: 1}, wsOp{Op: "sign", A: 1}, wsOp{Op: "encode", A: 1}, wsOp{Op: "decode", A: 0}, wsOp{Op: "decode", A: 1})
 	}
 	names := []string{"new", "sign", "sign", "encode", "encode", "decode", "decode", "decode-into", "decode-into", "edit-protected", "edit-payload", "edit-unprotected",
-		"tamper", "tamper", "re-sign", "scribble", "churn", "encode", "decode", "copy-redecode", "copy-redecode", "copy-template", "copy-template"}
+		"tamper", "tamper", "re-sign", "scribble", "churn", "encode", "decode", "copy-redecode", "copy-redecode", "copy-template", "copy-template", "countersign", "countersign", "countersign"}
 	k := rapid.IntRange(4, 24).Draw(t, "nops")
 	for i := 0; i < k; i++ {
 		c.Ops = append(c.Ops, wsOp{Op: rapid.SampledFrom(names).Draw(t, "op"), A: rapid.IntRange(0, 7).Draw(t, "a"), B: rapid.IntRange(0, 7).Draw(t, "b")})
@@ -582,6 +735,7 @@ func TestC01_Workspace(t *testing.T) { runWorkspace(t, "C01") }
 func TestC03_Workspace(t *testing.T) { runWorkspace(t, "C03") }
 func TestC07_Workspace(t *testing.T) { runWorkspace(t, "C07") }
 func TestC09_Workspace(t *testing.T) { runWorkspace(t, "C09") }
+func TestC10_Workspace(t *testing.T) { runWorkspace(t, "C10") }
 func TestC19_Workspace(t *testing.T) { runWorkspace(t, "C19") }
 
 var _ = rc.Hex(nil)
